@@ -41,7 +41,17 @@ func run4(f []string) (string, bool) {
 		return "ok:n0", true
 	case "fromraws":
 		return "cfg:" + fmtSuite(otp.SuiteConfigFromRaws(string(unhx(f[1])))), true
-	case "listsuites":
+	case "listsuites", "listsuites_after_edit":
+		if f[0] == "listsuites_after_edit" { // a caller edits the list it was given: the next caller must not see that
+			got := otp.ListSuites()
+			for i := range got {
+				got[i] = "edited-by-a-caller"
+			}
+			if len(got) > 3 {
+				got = append(got[:1], got[3:]...)
+			}
+			_ = got
+		}
 		// the advertised list must agree with the registry (hook), the known-suite test and lookup
 		names := otp.ListSuites()
 		sort.Strings(names)
